@@ -305,6 +305,28 @@ class Gen:
         self.iviews[w] = dict(view=pv, sel=sel, dims=dims, kind=kind)
         return w
 
+    def iview_for(self, lv, d):
+        """an IndexedArray with extents d (over an existing view, a fresh parent or the target's allocation); wid or None"""
+        r = self.r
+        src = r.choice([v for v, dd in self.views.items() if len(dd["dims"]) >= len(d)])
+        for _ in range(6):
+            cand = self.new_iview(src, len(d))
+            if cand is not None and self.iviews[cand]["dims"] == d:
+                return cand
+        # build index vectors of the right lengths over a fresh parent
+        pv = self.new_alloc([x_ + 1 for x_ in d]) if r.random() < 0.5 else self.allocs[self.views[lv]["alloc"]]["vid"]
+        pd = self.views[pv]["dims"]
+        if len(pd) != len(d) or any(n > p for n, p in zip(d, pd)):
+            return None
+        sel, seltxt = [], []
+        for n, p in zip(d, pd):
+            i = self.new_idx(n, p, r.random() < 0.3)
+            sel.append(("i", i)); seltxt.append("i%d" % i)
+        w = self.nw; self.nw += 1
+        self.emit("iview %d %d %s" % (w, pv, " ".join(seltxt)))
+        self.iviews[w] = dict(view=pv, sel=sel, dims=list(d), kind="i" * len(d))
+        return w
+
     # ---- expressions
     def leaves_for(self, lv, n, dims=None):
         """n leaf views with the extents of lv (or dims)"""
@@ -427,26 +449,9 @@ class Gen:
                 self.stmt("asg v%d %s" % (lv, " ".join(toks)), dict(kind="asg", lhs=lv, leaves=leaves, hows=hows, shape=shape, toks=toks))
             else:
                 # v = w(idx)  with w on the same allocation or another
-                src = r.choice([v for v, dd in self.views.items() if len(dd["dims"]) >= len(d)])
-                w = None
-                for _ in range(6):
-                    cand = self.new_iview(src, len(d))
-                    if cand is not None and self.iviews[cand]["dims"] == d:
-                        w = cand
-                        break
+                w = self.iview_for(lv, d)
                 if w is None:
-                    # build index vectors of the right lengths over a fresh parent
-                    pv = self.new_alloc([x_ + 1 for x_ in d]) if r.random() < 0.5 else self.allocs[self.views[lv]["alloc"]]["vid"]
-                    pd = self.views[pv]["dims"]
-                    if len(pd) != len(d) or any(n > p for n, p in zip(d, pd)):
-                        return
-                    sel, seltxt = [], []
-                    for n, p in zip(d, pd):
-                        i = self.new_idx(n, p, r.random() < 0.3)
-                        sel.append(("i", i)); seltxt.append("i%d" % i)
-                    w = self.nw; self.nw += 1
-                    self.emit("iview %d %d %s" % (w, pv, " ".join(seltxt)))
-                    self.iviews[w] = dict(view=pv, sel=sel, dims=list(d), kind="i" * len(d))
+                    return
                 shape = r.choice(["W", "add W L"])
                 toks, leaves, hows = ["w%d" % w], [], []
                 if shape != "W":
@@ -463,7 +468,13 @@ class Gen:
             toks, leaves, hows = self.expr(shape, lv)
             if op == "cdiv" and shape == "c":
                 toks = [r.choice(["c1", "c-1"] if self.t == "d" else ["c1", "c-1", "c2", "c-2", "c3"])]
-            self.stmt("%s v%d %s" % (op, lv, " ".join(toks)), dict(kind=op, lhs=lv, leaves=leaves, hows=hows, shape=shape, toks=toks))
+            wl = []
+            if op != "cdiv" and r.random() < 0.12:
+                w = self.iview_for(lv, self.views[lv]["dims"])
+                if w is not None:
+                    wl, shape, toks, leaves, hows = [w], "W", ["w%d" % w], [], []
+            self.stmt("%s v%d %s" % (op, lv, " ".join(toks)), dict(kind=op, lhs=lv, leaves=leaves, hows=hows, shape=shape, toks=toks,
+                                                                  wleaves=wl))
         elif x < 0.56:
             lv = self.pick_target()
             self.stmt("sca v%d %d" % (lv, r.randint(-9, 9)), dict(kind="sca", lhs=lv, leaves=[], hows=[], shape="scalar", toks=[]))
@@ -476,8 +487,21 @@ class Gen:
             else:
                 rs = r.choice(WHR_SHAPES)
                 rt, rl, rh = self.expr(rs, lv)
+            wl = []
+            if r.random() < 0.3:
+                # the right-hand side is (or contains) an integer-vector-indexed array: assign_conditional_ re-positions it
+                # with set_location after every run of false mask elements
+                w = self.iview_for(lv, self.views[lv]["dims"])
+                if w is not None:
+                    wl = [w]
+                    if r.random() < 0.5:
+                        rs, rt, rl, rh = "W", ["w%d" % w], [], []
+                    else:
+                        t2, l2, h2 = self.expr("L", lv)
+                        rs, rt, rl, rh = "add W L", ["add", "w%d" % w] + t2, l2, h2
             self.stmt("whr v%d %s ; %s" % (lv, " ".join(mt), " ".join(rt)),
-                      dict(kind="whr", lhs=lv, leaves=rl, hows=rh, mleaves=ml, mhows=mh, shape=rs, mshape=ms, toks=rt, mtoks=mt))
+                      dict(kind="whr", lhs=lv, leaves=rl, hows=rh, mleaves=ml, mhows=mh, shape=rs, mshape=ms, toks=rt, mtoks=mt,
+                           wleaves=wl))
         elif x < 0.73:
             lv = self.pick_target()
             ms = r.choice(EO_MASKS)
@@ -692,6 +716,55 @@ def reduction_sweep(rng, t, order, n_arrays):
                 txt = op % ((v1, v1) if op.count("%d") == 2 else v1)
                 kind = txt.split()[0]
                 g.stmt(txt, dict(kind=kind, fn=txt.split()[1] if kind in ("red", "redb") else kind, lhs=v1, leaves=[], hows=[], shape="L", toks=[]))
+        cases.append(dict(type=t, order=order, ops=g.ops, stmts=g.stmts, views=g.views, allocs=g.allocs, iviews=g.iviews, idx=g.idx))
+    return cases
+
+
+def packet_sweep(rng, t, order, n_arrays):
+    """statements whose innermost dimension is long enough for the packet (SIMD) loops of assign_expression_ and
+    reduce_inactive, on views that start at every offset 0..3 from the (aligned) allocation and have every length 4..13:
+    misaligned heads, tails that are not a whole packet, rows whose alignment alternates (odd row length), operands with
+    equal and with different misalignment"""
+    cases = []
+    for _ in range(n_arrays):
+        g = Gen(rng, t, order, allow_row_mode=False)
+        N = rng.randint(15, 19)
+        rank = rng.choice([1, 1, 2])
+        if rank == 1:
+            A = g.new_alloc([N], "def"); B = g.new_alloc([N], "def"); C = g.new_alloc([N], "def")
+            pre = []
+        else:
+            rows = rng.randint(2, 3)
+            dd = [rows, N] if order == "r" else [N, rows]
+            A = g.new_alloc(dd, "def"); B = g.new_alloc(dd, "def"); C = g.new_alloc(dd, "def")
+            pre = [":"]
+        combos = [(a, n) for a in range(4) for n in range(4, 14) if a + n <= N]
+        rng.shuffle(combos)
+        for a, n in combos[:10]:
+            def win(src, off):
+                sp = "s%d,%d,1" % (off, off + n - 1)
+                specs = (pre + [sp]) if order == "r" else ([sp] + pre)
+                return g.new_view(src, specs, "window")
+            b = rng.choice([a, a, (a + 1) % 4, (a + 2) % 4])
+            if b + n > N:
+                b = a
+            va, vb = win(A, a), win(B, b)
+            vc = win(C, rng.choice([a, b, 0]) if rng.random() < 0.7 and max(a, b) + n <= N else 0)
+            if va is None or vb is None or vc is None:
+                continue
+            for fn in rng.sample(["sum", "maxval", "minval", "mean"], 2):
+                g.stmt("red %s v%d" % (fn, va), dict(kind="red", fn=fn, lhs=va, leaves=[], hows=[], shape="L", toks=[]))
+            toks = ["mul", "v%d" % va, "v%d" % vb]
+            g.stmt("red sum %s" % " ".join(toks), dict(kind="red", fn="sum", lhs=va, leaves=[va, vb], hows=["window"] * 2,
+                                                          shape="mul L L", toks=toks))
+            op = rng.choice(["add", "mul", "sub"])
+            toks = [op, "v%d" % va, "v%d" % vb]
+            if rank == 2:
+                k = rng.randrange(2)
+                g.stmt("redd sum %d v%d" % (k, va), dict(kind="redd", fn="sum", lhs=va, leaves=[], hows=[], shape="L", toks=[]))
+            g.stmt("asg v%d %s" % (vc, " ".join(toks)), dict(kind="asg", lhs=vc, leaves=[va, vb], hows=["window"] * 2,
+                                                           shape="%s L L" % op, toks=toks))
+            g.stmt("cadd v%d v%d" % (vc, va), dict(kind="cadd", lhs=vc, leaves=[va], hows=["window"], shape="L", toks=["v%d" % va]))
         cases.append(dict(type=t, order=order, ops=g.ops, stmts=g.stmts, views=g.views, allocs=g.allocs, iviews=g.iviews, idx=g.idx))
     return cases
 
@@ -1265,6 +1338,13 @@ def run(ctx, replay):
         for t in ("d", "i"):
             for order in (("r",) if ctx.tier == "quick" else ("r", "c")):
                 results = run_cases(ctx, exe, label, t, reduction_sweep(ctx.rng, t, order, 3 if ctx.tier == "quick" else 12))
+                for res in results:
+                    report_case(ctx, res, label, t, exe)
+                    account(ctx, res, label, t)
+        # packet-loop sweep: every start offset x every inner length around the packet boundaries
+        for t in ("d", "i"):
+            for order in (("r",) if ctx.tier == "quick" else ("r", "c")):
+                results = run_cases(ctx, exe, label, t, packet_sweep(ctx.rng, t, order, 3 if ctx.tier == "quick" else 16))
                 for res in results:
                     report_case(ctx, res, label, t, exe)
                     account(ctx, res, label, t)
